@@ -40,8 +40,8 @@ func (g *counterUUIDs) NextV7() uuids.UUID {
 }
 
 // Draws is the explorer-owned random source: every draw asks the chooser for an index into Menu
-// (default answer 0). rand.Float64 = (Int63 & (2^53-1)) / 2^53, so any draw on that grid can be
-// forced. Hit counts the draws made.
+// (default answer 0). rand.Float64 = Int63 / 2^63, so any draw on the 2^-53 grid can be forced
+// exactly. Hit counts the draws made.
 type Draws struct {
 	Menu   []float64
 	Choose func(n int, label string) int
@@ -57,7 +57,9 @@ func (d *Draws) Int63() int64 {
 	if d.Choose != nil {
 		v = d.Menu[d.Choose(len(d.Menu), "draw")]
 	}
-	return int64(v * (1 << 53))
+	// math/rand: Float64 = float64(Int63()) / 2^63, so a value v on the 2^-53 grid is forced exactly by
+	// returning v * 2^63
+	return int64(v*(1<<53)) << 10
 }
 func (d *Draws) Uint64() uint64 { return uint64(d.Int63()) }
 func (d *Draws) Seed(int64)     {}
